@@ -125,3 +125,91 @@ def state_replay(ty, n, mu, M, op=None, x=None, other=None):
         scale = max([abs(float(ma)), 1.0] + [abs(float(v)) for v in Ma.values()])
         return program, [exp], {"state": [na, float(ma)] + [float(v) for v in Ma.values()], "scale": scale}
     return {"vars": vars_, "build": build, "counts": counts}
+
+
+def nat(vals, v):
+    x = vals[str(v)]
+    if x.denominator != 1 or x < 0:
+        raise ValueError("model count %s is not a natural number" % x)
+    return int(x)
+
+
+def wm_state_replay(ws, a, op=None, x=None, w=None, other=None):
+    """WeightedMean from parts (weight sum, weighted average); op: None | 'add' (x, w) | 'merge' (other = (wb, ab))"""
+    from .replay import expected_weighted
+    vars_ = [ws, a] + ([x, w] if op == "add" else []) + (list(other) if op == "merge" else [])
+
+    def build(vals):
+        W0, A0 = fr(dbl(vals[str(ws)])), fr(dbl(vals[str(a)]))
+        program = ["parts WeightedMean %s %s" % (f2w(float(W0)), f2w(float(A0)))]
+        W1, A1 = W0, A0
+        if op == "add":
+            xv, wv = fr(dbl(vals[str(x)])), fr(dbl(vals[str(w)]))
+            program.append("add %s %s" % (f2w(float(xv)), f2w(float(wv))))
+            W1 = W0 + wv
+            A1 = (W0 * A0 + wv * xv) / W1 if W1 > 0 else A0
+        elif op == "merge":
+            Wb, Ab = fr(dbl(vals[str(other[0])])), fr(dbl(vals[str(other[1])]))
+            program.append("parts WeightedMean %s %s" % (f2w(float(Wb)), f2w(float(Ab))))
+            program.append("merge")
+            if Wb > 0 and W0 > 0:
+                W1, A1 = W0 + Wb, (W0 * A0 + Wb * Ab) / (W0 + Wb)
+            elif Wb > 0:
+                W1, A1 = Wb, Ab
+        program.append("dump")
+        exp = {"mean": A1 if W1 > 0 else None, "sum_weights": W1}
+        return program, [exp], {"scale": max(abs(float(A0)), 1.0)}
+    return {"vars": vars_, "build": build, "counts": ()}
+
+
+def wmwe_state_replay(q, ws, a, mu, n, m2):
+    from .replay import expected_wmwe_summary
+
+    def build(vals):
+        nn = nat(vals, n)
+        Q, W0, A0, MU, M2 = [fr(dbl(vals[str(v)])) for v in (q, ws, a, mu, m2)]
+        program = ["parts WeightedMeanWithError %s %s %s %s %x %s" % (f2w(float(Q)), f2w(float(W0)), f2w(float(A0)), f2w(float(MU)), nn, f2w(float(M2))),
+                   "dump"]
+        return program, [expected_wmwe_summary(Q, W0, A0, MU, nn, M2)], {"scale": max(abs(float(A0)), abs(float(MU)), 1.0)}
+    return {"vars": [q, ws, a, mu, n, m2], "build": build, "counts": [n]}
+
+
+def cov_state_replay(A, op=None, xy=None, B=None):
+    """Covariance from parts A = (n, mx, my, sxx, syy, sxy) z3 vars"""
+    from .replay import expected_cov_summary
+    vars_ = list(A) + (list(xy) if op == "add" else []) + (list(B) if op == "merge" else [])
+    counts = [A[0]] + ([B[0]] if op == "merge" else [])
+
+    def build(vals):
+        def st(S):
+            return (nat(vals, S[0]),) + tuple(fr(dbl(vals[str(v)])) for v in S[1:])
+
+        def words(s):
+            n_, mx, my, sxx, syy, sxy = s
+            return "parts Covariance %s %s %s %s %s %x" % (f2w(float(mx)), f2w(float(sxx)), f2w(float(my)), f2w(float(syy)), f2w(float(sxy)), n_)
+        a = st(A)
+        program = [words(a)]
+        res = a
+        if op == "add":
+            x, y = fr(dbl(vals[str(xy[0])])), fr(dbl(vals[str(xy[1])]))
+            program.append("add %s %s" % (f2w(float(x)), f2w(float(y))))
+            n_, mx, my, sxx, syy, sxy = a
+            n1 = n_ + 1
+            dx, dy = x - mx, y - my
+            res = (n1, mx + dx / n1, my + dy / n1, sxx + dx * dx * n_ / n1, syy + dy * dy * n_ / n1, sxy + dx * dy * n_ / n1)
+        elif op == "merge":
+            b = st(B)
+            program += [words(b), "merge"]
+            if b[0] == 0:
+                res = a
+            elif a[0] == 0:
+                res = b
+            else:
+                n_ = a[0] + b[0]
+                dx, dy = b[1] - a[1], b[2] - a[2]
+                f = Fraction(a[0] * b[0], n_)
+                res = (n_, (a[0] * a[1] + b[0] * b[1]) / n_, (a[0] * a[2] + b[0] * b[2]) / n_, a[3] + b[3] + dx * dx * f, a[4] + b[4] + dy * dy * f,
+                       a[5] + b[5] + dx * dy * f)
+        program.append("dump")
+        return program, [expected_cov_summary(*res)], {"scale": max(abs(float(a[1])), abs(float(a[2])), 1.0)}
+    return {"vars": vars_, "build": build, "counts": counts}
